@@ -244,6 +244,46 @@ class C14(F.PropCheck):
             evs += [('NEWCONN', [], b''), ('CFG', [], prev), ('SEG', [], req)]
         return F.Case(cid, evs, tags)
 
+    def gen_clean_form(self, rng, cid):
+        """well-formed forms: text fields (one of them LAST, ending in an escape), numeric fields around their limits"""
+        al = b'abcdefghijklmnopqrstuvwxyzABCDEFGHIJKLMNOPQRSTUVWXYZ0123456789._~-'
+        def rtxt(n):
+            out = bytearray()
+            while len(out) < n:
+                k = rng.random()
+                if k < 0.75: out.append(rng.choice(al))
+                elif k < 0.85: out += b'+'
+                else: out += b'%%%02X' % rng.choice([0x20, 0x25, 0x26, 0x2B, 0x3D, 0x40, 0xC3, 0xA9, 0xE2, 0x82, 0xAC, 0x7F, 0x01, 0xFF]) if rng.random() < 0.8 else b'%%%02x' % rng.randrange(1, 256)
+            return bytes(out)
+        mqtt = rng.random() < 0.5
+        sizes = {b'sid': 32, b'wpw': 64, b'svr': 100, b'mvr': 100, b'eml': 256, b'usr': 256, b'pfx': 50}
+        texts = [b'sid', b'wpw', b'pfx'] + ([b'mvr', b'usr'] if mqtt else [b'svr', b'eml'])
+        def tval(n, esc_end):
+            L = rng.choice([1, 3, 8, 20, sizes[n] - 2, sizes[n] - 1, sizes[n], rng.randrange(1, sizes[n] + 2)])
+            v = rtxt(L)
+            if esc_end: v = v[:max(0, len(v) - 3)].rstrip(b'%') ; v = re.sub(rb'%[0-9A-Fa-f]?$', b'', v) + rng.choice([b'%C3%A9', b'%41', b'%e9', b'%2B', b'%7f'])
+            return v
+        def num(n):
+            if n == b'prt': return str(rng.choice([0, 1, 80, 1883, 65534, 65535, 65536, 65537, 70000, 131071, 131072 + 1883, 2**31 - 1, 2**31, 2**31 + 5, 2**32, 2**32 + 1, 2**32 + 1883,
+                                                   -1, -1883, -65535, 99999999999, rng.randrange(0, 140000)])).encode() if rng.random() < 0.9 else rng.choice([b'01883', b'0000001883', b'00000', b'-0'])
+            if n == b'qos': return rng.choice([b'0', b'1', b'2', b'3', b'9', b'10', b'25', b'-1', b'02', b'256', b'4294967297'])
+            return str(rng.choice([-2, -1, 0, 1, 50, 99, 100, 101, 127, 128, 155, 200, 255, 256, 300, 355, 356, 357, 512 + 7, -128, -129, -255, -257, 65536, 2**32, 2**32 + 5, 2**31, rng.randrange(-300, 600)])).encode()
+        order = [n for n in texts if rng.random() < 0.85]
+        nums = [n for n in (b'prt', b'qos', b'tm0', b'tm1', b'tm2', b'tm3') if rng.random() < 0.6]
+        fields = order + nums + [x for x in (b'led', b'tls', b'ret') if rng.random() < 0.5]
+        rng.shuffle(fields)
+        last = rng.choice(texts); fields = [f for f in fields if f != last] + [last]
+        parts = [b'pro=' + (b'1' if mqtt else b'0')] if rng.random() < 0.85 else []
+        for f in fields:
+            if f in sizes: parts.append(f + b'=' + tval(f, f == last))
+            elif f in (b'prt', b'qos', b'tm0', b'tm1', b'tm2', b'tm3'): parts.append(f + b'=' + num(f))
+            else: parts.append(f + b'=' + rng.choice([b'0', b'1']))
+        while len(parts) < 4: parts.insert(0, rng.choice([b'led=1', b'icf=0', b'trg=1']))
+        body = b'&'.join(parts)
+        hdr = b'POST / HTTP/1.1\r\nHost: 192.168.4.1\r\nContent-Type: application/x-www-form-urlencoded\r\nContent-Length: %d\r\n\r\n' % len(body)
+        return F.Case(cid, [('CFG', [], self.gen_prev(rng)), ('SEG', [], hdr + body)],
+                      ['clean-form:%s' % ('mqtt' if mqtt else 'supla'), 'last-field:%s' % last.decode(), 'one-segment'])
+
     def gen_two_step(self, rng, cid):
         """form A stores a long password (33..max), a later form B submits the password empty (or not at all) with a
         user name / e-mail of a different length"""
@@ -267,7 +307,9 @@ class C14(F.PropCheck):
         cases = []
         n2 = n // 8
         for i in range(n2): cases.append(self.gen_two_step(rng, '%st%d' % (tier[0], i)))
-        n = n - n2
+        n3 = n // 4
+        for i in range(n3): cases.append(self.gen_clean_form(rng, '%sc%d' % (tier[0], i)))
+        n = n - n2 - n3
         for i in range(n):
             prev = self.gen_prev(rng); req, tags = self.gen_request(rng)
             cuts, ct = self.cuts(rng, req, tier); tags = list(tags) + [ct]
@@ -303,6 +345,7 @@ class C14(F.PropCheck):
                     v.append('%ssegment %d: configuration saved although the request is not a POST to /' % (label, si))
                 elif count < 4:
                     v.append('%ssegment %d: configuration saved although only %d recognised fields were posted' % (label, si, count))
+            if saves and len(segs) == 1: self.check_values(label, si, seg, before, img, v)
             if changed:
                 # text settings stay terminated inside their field
                 for f in TEXT_FIELDS:
@@ -357,6 +400,74 @@ class C14(F.PropCheck):
             for nm in nms:
                 for m in re.finditer(re.escape(nm + b'='), sg):
                     yield m.end() >= len(sg) or sg[m.end():m.end() + 1] == b'&'
+
+    TEXT_VARS = {b'sid': ('WIFI_SSID', None), b'wpw': ('WIFI_PWD', None), b'svr': ('Server', False), b'mvr': ('Server', True),
+                 b'eml': ('Email', False), b'usr': ('Email', True), b'pfx': ('MqttTopicPrefix', None)}
+
+    def parse_clean(self, seg):
+        """an unsplit POST to / with '='-free headers and a well-formed urlencoded body: [(name, raw value)], else None"""
+        if not seg.startswith(b'POST / HTTP') or seg.count(b'\r\n\r\n') != 1: return None
+        he = seg.find(b'\r\n\r\n')
+        if b'=' in seg[:he]: return None
+        body = seg[he + 4:]
+        if not body: return None
+        pairs = []
+        for part in body.split(b'&'):
+            m = re.fullmatch(rb'([a-z0-9]{3})=((?:[A-Za-z0-9._~+\-]|%[0-9A-Fa-f]{2})*)', part)
+            if not m: return None
+            pairs.append((m.group(1), m.group(2)))
+        return pairs
+
+    @staticmethod
+    def urldecode(v):
+        out = bytearray(); i = 0
+        while i < len(v):
+            if v[i:i + 1] == b'%': out.append(int(v[i + 1:i + 3], 16)); i += 3
+            elif v[i:i + 1] == b'+': out.append(32); i += 1
+            else: out.append(v[i]); i += 1
+        return bytes(out)
+
+    def check_values(self, label, si, seg, before, img, v):
+        """reference decoding of one unsplit, well-formed, saved form: text fields hold the percent-decoded value,
+        numeric fields are accepted only inside their ranges (decided with unbounded integers from the request text)"""
+        c = consts(); pairs = self.parse_clean(seg)
+        if pairs is None: return
+        names = [n for (n, _) in pairs]
+        uniq = lambda n: names.count(n) == 1 and seg.count(n + b'=') == 1
+        if b'pro' in names:
+            if not uniq(b'pro'): return
+            mqtt = dict(pairs)[b'pro'][:1] == b'1'
+        else: mqtt = bool(before[c['O_Flags']] & 1)
+        def cs(b): k = b.find(b'\0'); return b if k < 0 else b[:k]
+        for (n, raw) in pairs:
+            if not uniq(n): continue
+            if n in self.TEXT_VARS:
+                f, need = self.TEXT_VARS[n]
+                if need is not None and need != mqtt: continue
+                if need is not None and any(self.TEXT_VARS.get(x, (None, None))[0] == f and x != n and self.TEXT_VARS[x][1] == mqtt for x in names): continue
+                o, sz = c['O_' + f], c['Z_' + f]
+                exp = cs(self.urldecode(raw)[:sz - 1]); got = cs(img[o:o + sz])
+                if n == b'wpw' and exp == b'': continue
+                if got != exp:
+                    v.append('%ssegment %d: %s: the stored value is not the URL-decoded submitted value of %s= (stored %r, expected %r)' %
+                             (label, si, f, n.decode(), got[-24:], exp[-24:]))
+            elif re.fullmatch(rb'-?[0-9]{1,11}', raw) and len(raw) <= 11:
+                val = int(raw)
+                if n == b'prt' and b'lid' not in names:
+                    o = c['O_LocationID']; old = int.from_bytes(before[o:o + 4], 'little', signed=True); new = int.from_bytes(img[o:o + 4], 'little', signed=True)
+                    if not (1 <= val <= 65535):
+                        if new != old: v.append('%ssegment %d: prt=%d is outside 1-65535 but was accepted (stored port %d, before %d)' % (label, si, val, new, old))
+                    elif len(raw) <= 9 and new != val: v.append('%ssegment %d: prt=%d (valid) was not stored (port %d)' % (label, si, val, new))
+                elif n == b'qos':
+                    o = c['O_MqttQoS']
+                    if not (0 <= val <= 2):
+                        if img[o] != before[o]: v.append('%ssegment %d: qos=%d is outside 0-2 but was accepted (stored %d)' % (label, si, val, img[o]))
+                    elif len(raw) == 1 and img[o] != val: v.append('%ssegment %d: qos=%d (valid) was not stored (QoS %d)' % (label, si, val, img[o]))
+                elif n in (b'tm0', b'tm1', b'tm2', b'tm3'):
+                    o = c['O_AdditionalTimeMargin'] + int(n[2:3]); got = img[o] - 256 if img[o] >= 128 else img[o]
+                    if not (-1 <= val <= 100):
+                        if got != -1: v.append('%ssegment %d: %s=%d is outside -1..100 but was accepted (stored margin %d)' % (label, si, n.decode(), val, got))
+                    elif len(raw) <= 9 and got != val: v.append('%ssegment %d: %s=%d (valid) was not stored (margin %d)' % (label, si, n.decode(), val, got))
 
     def effective_password(self, img):
         """(password, overflow part) as stored: Password field, and when it is full the string behind the name terminator inside the field; (None, b'') when the e-mail/user name is unterminated"""
